@@ -472,7 +472,9 @@ class Facts:
                 import re as _re
                 m = _re.match(r'^([\w:]+?)::<([\w:]+)::\w+(?:<[^>]*>)? as ', caller.qname)
                 trait_mod = (m.group(1) + '::' + m.group(2)) if m else None
-            if caller is not None and (caller.qname.rsplit('::', 1)[0] == bm or (caller.kind == 'AssocFn' and caller.qname.rsplit('::', 2)[0] == bm) or trait_mod == bm):
+            # ... or a new method of a type of the module whose only caller is a free function of that module
+            method_of_mod = base.kind == 'AssocFn' and caller is not None and base.qname.rsplit('::', 2)[0] == caller.qname.rsplit('::', 1)[0]
+            if caller is not None and (caller.qname.rsplit('::', 1)[0] == bm or (caller.kind == 'AssocFn' and caller.qname.rsplit('::', 2)[0] == bm) or trait_mod == bm or method_of_mod):
                 return self.home(caller, depth + 1)
         return base
 
